@@ -60,11 +60,13 @@ pub fn pick_policy(rng: &mut Rng, profile: Profile) -> Policy {
 pub fn gen_names(rng: &mut Rng, n: usize) -> Vec<NameSpec> {
     (0..n)
         .map(|i| {
-            let len = match rng.below(20) {
+            let len = match rng.below(24) {
                 0 => 200,
                 1 => 32 * 1024 + rng.below(100) as u32,
                 2 => 65535,
                 3 => 1,
+                // lengths around the one- and two-byte limits and around a block
+                4 => *rng.pick(&[255u32, 256, 257, 127, 128, 65534, 32767, 32768, 32750]),
                 _ => 2 + rng.below(7) as u32,
             };
             NameSpec { len, tag: i as u8, wide: rng.chance(1, 6) }
@@ -164,7 +166,13 @@ pub fn swarm(rng: &mut Rng, profile: Profile) -> GenCfg {
     cfg
 }
 
+/// Sizes that sit on format boundaries (full frame payload, block, file, 16-bit limits), +-1.
+const MAGIC_SIZES: [u32; 14] = [32761, 32760, 32762, 32768, 32767, 32749, 65535, 65536, 65522, 98283, 131072, 131071, 130000, 255];
+
 fn payload_len(rng: &mut Rng, cfg: &GenCfg, small_only: bool) -> u32 {
+    if !small_only && rng.chance(1, 25) {
+        return *rng.pick(&MAGIC_SIZES);
+    }
     let class = if small_only { rng.weighted(&[cfg.wp[0].max(1), cfg.wp[1].max(1), cfg.wp[2] / 2]) } else { rng.weighted(&cfg.wp) };
     match class {
         0 => 0,
@@ -271,7 +279,20 @@ impl Gen {
                 let pos = match style {
                     0 => None,
                     1 => Some(mq.next),
-                    2 => Some(mq.next + 1 + if rng.chance(1, 8) { rng.below(1 << 61) } else { rng.below(1000) }),
+                    2 => Some(match rng.below(10) {
+                        0 => mq.next + 1 + rng.below(1 << 61),
+                        // just past a power of two (32-bit truncation, sign bits, ...), as long as it lies ahead
+                        1 => {
+                            let p = 1u64 << *rng.pick(&[8u32, 16, 31, 32, 33, 48, 61]);
+                            let cand = p - 1 + rng.below(3);
+                            if cand > mq.next { cand } else { mq.next + 1 + rng.below(1000) }
+                        }
+                        2 => {
+                            let cand = (1u64 << 62) - 1 - rng.below(1000);
+                            if cand > mq.next { cand } else { mq.next + 1 }
+                        }
+                        _ => mq.next + 1 + rng.below(1000),
+                    }),
                     3 => mq.next.checked_sub(1),
                     _ => {
                         if mq.next >= 2 {
@@ -289,6 +310,17 @@ impl Gen {
                     _ => 20 + rng.usize_below(31),
                 };
                 let mut lens: Vec<u32> = (0..n).map(|_| payload_len(rng, &cfg, n >= 20)).collect();
+                if n >= 2 && rng.chance(1, 6) {
+                    match rng.below(4) {
+                        0 => *lens.last_mut().unwrap() = 0,
+                        1 => lens[0] = 0,
+                        2 => lens.iter_mut().for_each(|l| *l = 0),
+                        _ => {
+                            let k = rng.usize_below(n);
+                            lens[k] = 0;
+                        }
+                    }
+                }
                 // alignment targeting on the first payload
                 if n >= 1 && rng.below(1000) < cfg.align_permille as u64 {
                     if let Some((_, off)) = d.cursor {
